@@ -285,6 +285,28 @@ func (c07) Run(t *tape.Tape, tier Tier) *Result {
 		}
 	}
 	walkTok(spec, false)
+	// nil handling of the hiding constructors, as documented: nothing to hide
+	// from gives nothing (except CombineErrors, which returns the other error)
+	if len(hiddenErrs) > 0 {
+		h := hiddenErrs[0]
+		for _, c := range []struct {
+			name string
+			got  error
+			want error
+		}{
+			{"errors.WithSecondaryError(nil, e)", errors.WithSecondaryError(nil, h), nil},
+			{"errors.WithSecondaryError(e, nil)", errors.WithSecondaryError(h, nil), h},
+			{"errors.CombineErrors(nil, e)", errors.CombineErrors(nil, h), h},
+			{"errors.CombineErrors(e, nil)", errors.CombineErrors(h, nil), h},
+			{"errors.Handled(nil)", errors.Handled(nil), nil},
+			{"errors.HandledWithMessage(nil)", errors.HandledWithMessage(nil, "x"), nil},
+			{"errors.Mark(nil, e)", errors.Mark(nil, h), nil},
+		} {
+			if !sameValue(interface{}(c.got), interface{}(c.want)) && !(c.got == nil && c.want == nil) {
+				res.add(Violation{Prop: "C07", Oracle: "nil-argument-contract", Culprit: c.name, Expected: fmt.Sprintf("%v", c.want), Observed: fmt.Sprintf("%v", c.got)})
+			}
+		}
+	}
 	// the *WithMessage variants replace the text even with an empty message
 	if len(hiddenErrs) > 0 {
 		h := hiddenErrs[0]
